@@ -34,6 +34,10 @@ EXPLANATION = (
     "m is provably 1; (f) BACKTRACK - the chain i <- prev[i]-1 from n-1 with the artificial 0 dropped reaches the formatter unmodified. "
     "NOT decided: optimality itself (paper induction over a-e) and equality of the final score with the cost of the result."
 )
+# obligations added during the build phase (seeding rounds, twins, mutation analysis)
+ADDED_IN_BUILD = ' Also: (g) BINDING - PELT._predict hands the driver the values of the input, the fitted penalty_, the configured min_segment_length and, on every path, the very cost object the user configured (an arbitrary user cost whose truth value is unknown: a default substituted by `cost or L2Cost()` is reported); the PELT obligations of C10.c NO-STALE-READ are re-run here.'
+EXPLANATION = EXPLANATION + ADDED_IN_BUILD
+
 ASSUMPTIONS = [
     "Python's ast module and evaluation-order/argument-binding semantics as implemented in skverif/symex.py",
     "library model table skverif/models.py (np.concatenate, np.argmin, boolean-mask indexing, np.isin)",
